@@ -150,6 +150,18 @@ var NegSnippets = []NegSnippet{
 	neg("zerores", "mem", "deriveMemNeg", "", "func negUse(f func()) { _ = deriveMemNeg(f) }"),
 	neg("zerores", "compose", "deriveComposeNeg", "", "func negUse(f func(a int) error, g func() (int, error)) { _ = deriveComposeNeg(f, g) }"),
 	neg("zerores", "toerror", "deriveToErrorNeg", "", "func negUse(err error, f func() bool) { _ = deriveToErrorNeg(err, f) }"),
+	// calls whose argument is a call with no or several results (go/types gives the argument a tuple type)
+	neg("tuple", "join", "deriveJoinNeg", "()", "func negNone() {}\n\nvar negV = deriveJoinNeg(negNone())"),
+	neg("tuple", "equal", "deriveEqualNeg", "()", "func negNone() {}\n\nvar negV = deriveEqualNeg(negNone(), negNone())"),
+	neg("tuple", "hash", "deriveHashNeg", "(int, string)", "func negTwo() (int, string) { return 1, \"\" }\n\nvar negV = deriveHashNeg(negTwo())"),
+	neg("tuple", "keys", "deriveKeysNeg", "()", "func negNone() {}\n\nvar negV = deriveKeysNeg(negNone())"),
+	neg("tuple", "fmap", "deriveFmapNeg", "()", "func negNone() {}\n\nfunc negUse(l []int) { _ = deriveFmapNeg(negNone(), l) }"),
+	neg("tuple", "compose", "deriveComposeNeg", "()", "func negNone() {}\n\nvar negV = deriveComposeNeg(negNone(), negNone())"),
+	neg("tuple", "sort", "deriveSortNeg", "(int, int)", "func negTwo() (int, int) { return 1, 2 }\n\nvar negV = deriveSortNeg(negTwo())"),
+	neg("tuple", "clone", "deriveCloneNeg", "()", "func negNone() {}\n\nvar negV = deriveCloneNeg(negNone())"),
+	neg("tuple", "tuple", "deriveTupleNeg", "()", "func negNone() {}\n\nvar negV = deriveTupleNeg(negNone())"),
+	neg("tuple", "mem", "deriveMemNeg", "()", "func negNone() {}\n\nvar negV = deriveMemNeg(negNone())"),
+	neg("tuple", "join", "deriveJoinNeg", "(int, int, int)", "func negThree() (int, int, int) { return 1, 2, 3 }\n\nvar negV = deriveJoinNeg(negThree())"),
 	// syntactically or type-wise broken user files
 	{Kind: "broken", Text: "package p\n\nfunc negBroken( {\n"},
 	{Kind: "broken", Text: "package p\n\nvar negX int = \"s\"\n"},
@@ -169,7 +181,17 @@ var unsupportedFieldTypes = []*Ty{
 
 // SpliceNegative adds one unsupported constituent to the world and returns
 // its description (kind, plugin, call name, offending type).
-func SpliceNegative(w *World, t *tape.Tape) NegSnippet {
+func SpliceNegative(w *World, t *tape.Tape, index int) NegSnippet {
+	if index >= 0 && index < len(NegSnippets) {
+		// the first len(NegSnippets) cases of a run enumerate the table once
+		t.Force(5, 1)
+		s := NegSnippets[t.Force(len(NegSnippets), index)]
+		if w.RawFiles == nil {
+			w.RawFiles = map[string]string{}
+		}
+		w.RawFiles["p/zz_neg.go"] = s.Text
+		return s
+	}
 	if t.Intn(5) == 0 {
 		// unsupported field inside a struct that a structural plugin is asked to handle
 		var structs []*Decl
